@@ -46,10 +46,17 @@ type cellProxy struct {
 	reenter func(a uint32)
 }
 
-func (p *cellProxy) check(a uint32) {
-	if a>>4&1 != p.parity && !p.m.Misrouted {
-		p.m.Misrouted, p.m.MisAddr = true, a
+// check notes an access that belongs to the other object and reports it; such an access is served with
+// the complement of the byte (the two objects are different chips: what one holds at an address is not
+// what the other holds), so that a misdirected access also shows in the architectural result
+func (p *cellProxy) check(a uint32) (foreign bool) {
+	if a>>4&1 != p.parity {
+		if !p.m.Misrouted {
+			p.m.Misrouted, p.m.MisAddr = true, a
+		}
+		return true
 	}
+	return false
 }
 func (p *cellProxy) nested(a uint32) {
 	if p.reenter != nil && !p.m.inNested {
@@ -62,16 +69,21 @@ func (p *cellProxy) Read(a uint32) byte {
 	if p.m.inNested {
 		return p.m.Peek(a) // the object's own access: not part of the instruction's access log
 	}
-	p.check(a)
+	foreign := p.check(a)
 	v := p.m.Read(a)
 	p.nested(a)
+	if foreign {
+		return ^v
+	}
 	return v
 }
 func (p *cellProxy) Write(a uint32, v byte) {
 	if p.m.inNested {
 		return
 	}
-	p.check(a)
+	if p.check(a) {
+		v = ^v
+	}
 	p.m.Write(a, v)
 	p.nested(a)
 }
